@@ -83,6 +83,44 @@ func readFiles(dir string) M {
 // context, file access); the clock is the hook H4, the pause loop is driven
 // by hook H1.
 func hCli(c M) M {
+	first := runHistory(c)
+	n := num(c, "repeat")
+	equal := true
+	var other M
+	for i := 1; i < n; i++ {
+		again := runHistory(c)
+		if !sameSteps(first, again) {
+			equal = false
+			other = again
+			break
+		}
+	}
+	first["repeat_equal"] = equal
+	if other != nil {
+		first["repeat_other"] = other["steps"]
+	}
+	return first
+}
+
+// sameSteps compares what the user can observe: exit codes, errors and file contents.
+func sameSteps(a, b M) bool {
+	as, _ := a["steps"].([]M)
+	bs, _ := b["steps"].([]M)
+	if len(as) != len(bs) {
+		return false
+	}
+	for i := range as {
+		// (the error text names the temporary directory and is not compared)
+		for _, k := range []string{"code", "files", "touched"} {
+			if string(encode(as[i][k])) != string(encode(bs[i][k])) {
+				return false
+			}
+		}
+	}
+	return true
+}
+
+func runHistory(c M) M {
 	dir, err := os.MkdirTemp("", "kdrive")
 	if err != nil {
 		panic(err)
